@@ -29,6 +29,9 @@ import Bng.Model.KeyEnc
     kf mac <6B>                                           => go=<MACToUint64 LE> c.dhcp=<…> c.antispoof=<…>
     kf vlan <s> <c|-> <pcp1> <dei1> <pcp2> <dei2>         => go=<key written by AddVLANSubscriber> c=<key looked up>
     kf ip <4B> | kf fnv <hex> | kf alg <port> <proto>     => go=<…> [c=<…>]
+    nput <map> <keyType> <valType> k=<leaf,…> <GoField>=<n|x…> …  => v=<hex> c.<member>=<n|x…> …   (verdict `field`)
+    cfg antispoof setmode <n>                             => v=<hex> c.default_mode=<n> c.log_violations=<n>
+    pget <map> <keyType> <valType> rawv=<hex>             => v=<leaf,…>
 -/
 namespace Bng.Drv.LayoutDrv
 open Bng Bng.Drv Bng.Layout Bng.KeyEnc Bng.Gen.Layout
@@ -152,6 +155,95 @@ def doGet (toks : List String) (impl : String) : LineResult :=
             | none => [("size", "none", s!"{tuple} raw={hexOf rv} go-reads:{impl} c-wrote:{want}")]
         { modelObs := model, viols := viols }
     | _, _, _ => { modelObs := "badop" }
+  | _ => { modelObs := "badop" }
+
+/-! ## fields by NAME (`nput`, `cfg`) -/
+
+/-- a field assignment of the op: Go leaf name ↦ a number or raw bytes (`x…`) -/
+def parseAssign (t : String) : Option (String × (Nat ⊕ List UInt8)) :=
+  match t.splitOn "=" with
+  | [n, v] =>
+    if v.startsWith "x" then (parseHexBytes (String.ofList (v.toList.drop 1))).map fun b => (n, .inr b)
+    else v.toNat?.map fun x => (n, .inl x)
+  | _ => none
+
+def assignBytes (w : Nat) : Nat ⊕ List UInt8 → List UInt8
+  | .inl x => leBytes w x
+  | .inr b => fit w b
+
+def showVal : Nat ⊕ List UInt8 → String
+  | .inl x => toString x
+  | .inr b => "x" ++ hexOf b
+
+/-- what the compiled C code reads out of `bs` as record `c`, member by member: `c.<member>=<number | x<hex>>` -/
+def cDecodeStr (c : Struct) (bs : List UInt8) : String :=
+  " ".intercalate ((named c.fields).filterMap fun f =>
+    if f.name.isEmpty then none else
+    match f.kind with
+    | .int => some s!"c.{f.name}={leVal (slice bs f.off f.width)}"
+    | .bytes => some s!"c.{f.name}=x{hexOf (slice bs f.off f.width)}"
+    | .arr _ => none)
+
+/-- common engine of `nput` and `cfg`: Go writes `assigns` (by Go leaf name) into a zero value of its type; the model
+    is the Go image (generated table) decoded by the C record; the property: the C member called like the Go field
+    (or the member named in `expect`) reads the value that was assigned -/
+def namedWrite (what m kt vt : String) (kvals : List (List UInt8)) (assigns : List (String × (Nat ⊕ List UInt8)))
+    (expect : Option (List (String × String))) (impl : String) : LineResult :=
+  match findUse m kt vt with
+  | none => { modelObs := "badop" }
+  | some u =>
+    match u.goVal with
+    | none => { modelObs := "badop" }
+    | some gv =>
+      if assigns.any (fun a => !(named gv.fields).any fun f => f.name == a.1) then { modelObs := "badop" } else
+      let vals := (named gv.fields).map fun f =>
+        match assigns.lookup f.name with
+        | some v => assignBytes f.width v
+        | none => List.replicate f.width 0
+      let img := image gv vals
+      let model :=
+        if u.goKey.size != u.cKeySize then "err size-key"
+        else if gv.size != u.cValSize then "err size-value"
+        else s!"v={hexOf img} {cDecodeStr u.cVal img}"
+      let _ := kvals
+      -- expected C-side reading: explicit (cfg) or by name correspondence (nput)
+      let wanted : List (String × String × String) := match expect with
+        | some e => e.map fun (cn, v) => (cn, cn, v)
+        | none => assigns.map fun (gn, v) =>
+            let gnorm := ((named gv.fields).find? fun f => f.name == gn).map (·.norm) |>.getD "?"
+            match (named u.cVal.fields).find? fun f => f.norm == gnorm with
+            | some cf => (gn, cf.name, showVal v)
+            | none => (gn, "?", showVal v)
+      let viols : List Verdict :=
+        if impl.startsWith "err size" then
+          [("size", "none", s!"{what}: map={m} go=({kt},{vt}) go-size={gv.size} map-value-size={u.cValSize} cilium:{impl}")]
+        else if !impl.startsWith "v=" then []
+        else wanted.filterMap fun (gn, cn, v) =>
+          if cn == "?" then
+            some ("field", "none", s!"{what}: map={m} go={vt} c={u.cVal.name}: no C member is named like Go field {gn}")
+          else if tok impl ("c." ++ cn) == v then none
+          else some ("field", "none",
+            s!"{what}: map={m} go={vt} c={u.cVal.name}: Go field {gn} was set to {v} but the C member {cn} reads {tok impl ("c." ++ cn)} (bytes {tok impl "v"})")
+      { modelObs := model, viols := viols }
+
+def doNput (toks : List String) (impl : String) : LineResult :=
+  match toks with
+  | _ :: m :: kt :: vt :: ka :: rest =>
+    match parseLeaves ((ka.splitOn "=").getD 1 ""), rest.mapM parseAssign with
+    | some kv, some as => namedWrite "nput" m kt vt kv as none impl
+    | _, _ => { modelObs := "badop" }
+  | _ => { modelObs := "badop" }
+
+/-- `cfg antispoof setmode n`: the real `Manager.SetMode` writes `Config{DefaultMode: n, LogViolations: 1}`; the
+    program must read `default_mode = n`, `log_violations = 1` -/
+def doCfg (toks : List String) (impl : String) : LineResult :=
+  match toks with
+  | ["cfg", "antispoof", "setmode", ns] =>
+    match ns.toNat? with
+    | some n => namedWrite s!"antispoof.SetMode({n})" "antispoof_config" "uint32" "antispoof.Config" [[0, 0, 0, 0]]
+        [("DefaultMode", .inl n), ("LogViolations", .inl 1)]
+        (some [("default_mode", toString n), ("log_violations", "1")]) impl
+    | none => { modelObs := "badop" }
   | _ => { modelObs := "badop" }
 
 /-- `pget <map> <keyType> <valType> rawv=<hex>`: typed read of CPU 0's value of a per-CPU map into a slice -/
@@ -507,6 +599,8 @@ def step (st : Unit) (toks : List String) (impl : String) : Unit × LineResult :
     | "get" :: _ => doGet toks impl
     | "percpu" :: _ => doPercpu toks impl
     | "pget" :: _ => doPget toks impl
+    | "nput" :: _ => doNput toks impl
+    | "cfg" :: _ => doCfg toks impl
     | "x" :: "qos" :: rest => apiFailure (xQos (kvOf rest) impl) impl
     | "x" :: "antispoof" :: rest => apiFailure (xAntispoof (kvOf rest) impl) impl
     | "x" :: "dhcp" :: rest => apiFailure (xDhcp (kvOf rest) impl) impl
